@@ -36,7 +36,7 @@ FU = 'utils.func_utils'
 
 
 def run(ctx: Ctx):
-  for r in (r17, r16, r1, r2, r3, r4, r5, r6, r7, r8, r9, r10, r11, r12, r13, r14, r15):
+  for r in (r18, r19, r17, r16, r1, r2, r3, r4, r5, r6, r7, r8, r9, r10, r11, r12, r13, r14, r15):
     ctx.guard(r)
 
 
@@ -972,11 +972,73 @@ def r17(ctx: Ctx):
   ctx.floor(rule, 1, n)
 
 
+def r18(ctx: Ctx):
+  rule = 'R-C17-18'
+  ctx.rule(rule, '"a cached call evaluates once and afterwards returns the identical object" — whatever it evaluated to: on a cache'
+           ' miss the wrapper stores the result UNCONDITIONALLY. The store `cache[x] = <result>` is not nested under a test of'
+           ' the result (`if result is not None:`): a cached call whose value is None (a side-effect function, a dict.get'
+           ' miss) would be evaluated again at every materialisation, and twice within one expression that uses it twice')
+  mi = ctx.repo.module(LF)
+  fi = mi.functions.get('_maybe_lru_cache')
+  if fi is None:
+    raise AnalysisError('_maybe_lru_cache not found')
+  pm = parent_map(fi.node)
+  n = 0
+  for x in ast.walk(fi.node):
+    if not (isinstance(x, ast.Assign) and isinstance(x.targets[0], ast.Subscript) and isinstance(x.value, ast.Name)):
+      continue
+    n += 1
+    val = x.value.id
+    guard = None
+    q = x
+    while q in pm:
+      q = pm[q]
+      if isinstance(q, ast.If) and any(isinstance(y, ast.Name) and y.id == val for y in ast.walk(q.test)):
+        guard = q
+    what = f'_maybe_lru_cache: `{unparse(x)[:40]}` stores every result of a miss'
+    if guard is not None:
+      ctx.fail(rule, fi, what,
+               f'the store runs only under `{unparse(guard.test)}`: results that fail the test are never cached and the call is'
+               ' evaluated again each time', node=x)
+    else:
+      ctx.ok(rule, fi, what, x)
+  ctx.floor(rule, 1, n)
+
+
+def r19(ctx: Ctx):
+  rule = 'R-C17-19'
+  ctx.rule(rule, '"a cached call evaluates once": two traced expressions are the same call when their parts are EQUAL. `__eq__` of'
+           ' the lazy classes compares the wrapped values with `==`, never with `is`: every `obj.method` access builds a new'
+           ' bound-method object that is equal but not identical to the previous one, so re-building the same cached'
+           ' expression over a method would miss the cache and run the (stateful) method again')
+  mi = ctx.repo.module(LF)
+  n = 0
+  for ci in mi.classes.values():
+    fi = ci.methods.get('__eq__')
+    if fi is None:
+      continue
+    n += 1
+    bad = [c for c in ast.walk(fi.node) if isinstance(c, ast.Compare) and any(isinstance(o, (ast.Is, ast.IsNot)) for o in c.ops)
+           and isinstance(c.left, ast.Attribute) and c.left.attr in ('value', 'args', 'kwargs')
+           and any(isinstance(k, ast.Attribute) and k.attr == c.left.attr for k in c.comparators)]
+    what = f'{ci.name}.__eq__ compares the traced parts by value'
+    if bad:
+      ctx.fail(rule, fi, what, f'`{unparse(bad[0])}` compares by identity: equal bound methods / equal argument tuples built at different'
+               ' times make two cache entries for one expression', node=bad[0])
+    else:
+      ctx.ok(rule, fi, what, fi.node)
+  ctx.floor(rule, 2, n)
+
+
 from mlmverif.selfcheck import B, OK  # noqa: E402
 
 _L = 'chainables/lazy_fns.py'
 _F = 'utils/func_utils.py'
 VARIANTS = [
+    B('none-results-not-cached', 'chainables/lazy_fns.py',
+      "            result = fn(x)\n            lazy_obj_cache[x] = result\n            return result", "            result = fn(x)\n            if result is not None:\n              lazy_obj_cache[x] = result\n            return result", 'R-C17-18'),
+    B('traced-callables-compared-by-identity', 'chainables/lazy_fns.py',
+      "    if not self._cache_result and not other._cache_result:\n      return self.value == other.value", "    if not self._cache_result and not other._cache_result:\n      if callable(self.value) and callable(other.value):\n        return self.value is other.value\n      return self.value == other.value", 'R-C17-19'),
     B('id-counter-four-bytes', 'chainables/lazy_fns.py',
       "_increment_id = IncrementId(id_len=8)", "_increment_id = IncrementId(id_len=4)", 'R-C17-17'),
     OK('makers-key-through-a-helper-free-local', 'chainables/lazy_fns.py',
